@@ -56,7 +56,7 @@ var logOnly = map[string]bool{
 // stop there (schedSpec.Coarse)
 var innerLabel = map[string]bool{
 	"ad.sub": true, "job.sp.load": true, "job.mc.load": true, "jclose.checked": true, "disp.cas.load": true, "reap.expired": true,
-	"add.pre": true, "bind.sub": true, "wgc.load": true, "wrap.wf": true,
+	"add.pre": true, "bind.sub": true, "wgc.load": true, "wrap.wf": true, "q.len": true, "q.deq": true, "q.enq": true,
 }
 
 type gate struct {
